@@ -57,8 +57,11 @@ def overlapping_footprints(res, base):
     return False
 
 
+CROWD = 70
+
+
 def gen_case(rng, force_twin=False):
-    scn = P.gen_scenario(rng, nrepos=1) if force_twin else P.gen_scenario(rng)
+    scn = (P.gen_scenario(rng, nrepos=1, small=(force_twin == "crowd")) if force_twin else P.gen_scenario(rng))
     # sometimes make two indices of one directory byte-identical (shared by-hash alias, F11)
     twin = force_twin or rng.random() < 0.25
     if twin:
@@ -72,9 +75,16 @@ def gen_case(rng, force_twin=False):
                     cc["contents_identical"] = True
                     cc["arches"].setdefault("amd64", [])
                     cc["arches"].setdefault("i386", [])
+                    if force_twin == "crowd":
+                        # more byte-identical siblings than the downloader's window of 128 tasks admits at once
+                        cc["arches"] = {f"a{i:03d}": [] for i in range(CROWD)}
+                        cc["sources"] = None
                 if cn in r["config"]["codenames"]:
                     for comp in r["config"]["codenames"][cn]:
-                        r["config"]["codenames"][cn][comp]["arches"] = ["amd64", "i386"]
+                        r["config"]["codenames"][cn][comp]["arches"] = (
+                            [f"a{i:03d}" for i in range(CROWD)] if force_twin == "crowd" else ["amd64", "i386"])
+                        if force_twin == "crowd":
+                            r["config"]["codenames"][cn][comp]["src"] = False
         scn.nthreads = max(scn.nthreads, 2)
     shared = (not force_twin) and rng.random() < 0.2
     if shared:
@@ -96,6 +106,18 @@ def run_case(rep, scn, case, sb, tag, n_orders, n_seeds, lrows=None):
     plan = R.gen_fault_plan(rng, scn, files, density=rng.choice([0, 1, 2, 3]))
     found = False
     path_fault = None
+    if case.get("crowd"):
+        # the upstream sends no Last-Modified for the shared alias (so every sibling transfers it again) and one
+        # of its transfers breaks off half way and is retried
+        for r in scn.repos:
+            fs = files[r["url"]]
+            groups = {}
+            for p, (data, _) in fs.items():
+                if "/by-hash/" in p and "/binary-" not in p:
+                    groups.setdefault(p, 0)
+            for p in groups:
+                fs[p] = (fs[p][0], None)
+                plan.setdefault(r["url"], {})[p] = {"first": ["good", "good", "abort", "good", "abort"], "rest": "good"}
     if case.get("shared"):
         from .c02 import required_pool
         r0 = scn.repos[0]
@@ -196,6 +218,11 @@ def run(rep: C.Report):
         for i in range(16 if rep.tier == "quick" else 300):
             scn, case = gen_case(trng, force_twin=True)
             found |= run_case(rep, scn, case, sb, f"t{i}", 8, 0, lrows)
+        # ... and more of them than the window of 128 tasks
+        for i in range(3 if rep.tier == "quick" else 40):
+            scn, case = gen_case(trng, force_twin="crowd")
+            case["crowd"] = True
+            found |= run_case(rep, scn, case, sb, f"w{i}", 3, 0, lrows)
     finally:
         shutil.rmtree(sb, ignore_errors=True)
     found |= locks_tie(rep, lrows, found)
